@@ -5,7 +5,8 @@ Monitors on the real code (all judged through *fresh* ``WorkingTree.open`` objec
 * persistence: random ``ConflictList``s over all ten conflict classes with hostile
   paths / file ids / actions -> ``wt.set_conflicts`` -> fresh open -> ``conflicts()``
   must give the same records (type, path, file_id, action, conflict_path,
-  conflict_file_id), compared as a multiset;
+  conflict_file_id), compared as a multiset; then a second store whose list differs from
+  the stored one in exactly one field of one conflict (or not at all) -> same judgement;
 * ``set_merge_modified`` -> (edit / rename / unversion / delete) -> fresh open ->
   ``merge_modified()`` must be exactly the written entries whose file is still
   versioned and still has that sha1 (the documented filter);
@@ -42,6 +43,7 @@ MIN_EVALS = {"quick": 800, "thorough": 8000}
 FLOORS = {
     "oracle_conflicts_roundtrip": 150,
     "oracle_truncation": 30,
+    "oracle_restore_one_field": 100,
     "contract_select_conflicts": 200,
     "contract_select_conflicts_live": 30,
     "oracle_resolve_command": 40,
@@ -273,6 +275,60 @@ def gen_conflict(rng, mode, classes=None):
         cfid = gen_fid(rng, path, mode)
         return cls(action, path, gen_path(rng, mode), file_id=fid, conflict_file_id=cfid)
     return cls(action, path, file_id=fid)
+
+
+def mutate_one_field(rng, mode, c):
+    """A conflict equal to `c` except for exactly one field (same class): the second store of a tree whose stored
+    list differs from the new one in a single field must still be written (the statement says *any* list)."""
+    from breezy.bzr import conflicts as bc
+
+    name = type(c).__name__
+    cls = getattr(bc, name)
+    path, fid = c.path, getattr(c, "file_id", None)
+    action, cp, cfid = getattr(c, "action", None), getattr(c, "conflict_path", None), getattr(c, "conflict_file_id", None)
+    fields = ["path", "file_id"]
+    if name in ("ContentsConflict", "PathConflict"):
+        fields += ["conflict_path"] * 3
+    elif name in ("DuplicateID", "DuplicateEntry", "ParentLoop"):
+        fields += ["action", "conflict_path", "conflict_file_id"]
+    elif name != "TextConflict":
+        fields += ["action"]
+    f = rng.choice(fields)
+    for _ in range(8):
+        if f == "path":
+            new = gen_path(rng, mode)
+            if new != path:
+                path = new
+                break
+        elif f == "file_id":
+            new = gen_fid(rng, path, mode)
+            if new != fid:
+                fid = new
+                break
+        elif f == "action":
+            new = rng.choice(ACTIONS)
+            if new != action:
+                action = new
+                break
+        elif f == "conflict_path":
+            new = rng.choice([None, "<deleted>", path + ".OTHER", gen_path(rng, mode)]) if name in ("ContentsConflict", "PathConflict") else gen_path(rng, mode)
+            if new != cp:
+                cp = new
+                break
+        elif f == "conflict_file_id":
+            new = gen_fid(rng, path, mode)
+            if new != cfid:
+                cfid = new
+                break
+    else:
+        return None, None
+    if name == "TextConflict":
+        return cls(path, file_id=fid), f
+    if name in ("ContentsConflict", "PathConflict"):
+        return cls(path, conflict_path=cp, file_id=fid), f
+    if name in ("DuplicateID", "DuplicateEntry", "ParentLoop"):
+        return cls(action, path, cp, file_id=fid, conflict_file_id=cfid), f
+    return cls(action, path, file_id=fid), f
 
 
 def gen_list(rng, mode, maxn=9):
@@ -779,6 +835,15 @@ def _case(ctx):
             select_round(ctx, root, cl)
             if rng.random() < 0.5:
                 select_round(ctx, root, cl)
+            if rng.random() < 0.7:
+                # second store over the stored list: same length, exactly one field of one conflict differs (or nothing)
+                i = rng.randrange(len(cl))
+                c2, f = (cl[i], "nothing") if rng.random() < 0.1 else mutate_one_field(rng, mode, cl[i])
+                if c2 is not None:
+                    cl = cl[:i] + [c2] + cl[i + 1:]
+                    ctx.count("oracle_restore_one_field")
+                    ctx.hist("restore-one-field:" + f)
+                    persist_round(ctx, root, cl, None)
         prev = len(cl)
     for _ in range(2 if ctx.tier == "quick" else 3):
         resolve_round(ctx, root, rng.choice(VARIANTS))
